@@ -5,7 +5,7 @@ let rec fpos = function XH -> 1. | XO q -> 2. *. fpos q | XI q -> 2. *. fpos q +
 let fz = function Z0 -> 0. | Zpos q -> fpos q | Zneg q -> -. fpos q
 let softplus x = (* jax.nn.softplus = logaddexp(x, 0) *)
   if Float.is_nan x then x else Float.max x 0. +. Float.log1p (Float.exp (-. Float.abs x))
-let atanh x = 0.5 *. Float.log1p (2. *. x /. (1. -. x))
+let atanh x = 0.5 *. (Float.log1p x -. Float.log1p (-. x))
 let sign x = if Float.is_nan x then x else if x > 0. then 1. else if x < 0. then -1. else 0.
 (* Lanczos approximation, g = 7, n = 9 (for x > 0 after reflection) *)
 let lanczos = [| 0.99999999999980993; 676.5203681218851; -1259.1392167224028; 771.32342877765313;
